@@ -126,6 +126,18 @@ def newFile (c : Conn) : Conn × Nat :=
 
 def dropFile (c : Conn) (id : Nat) : Conn := { c with live := c.live.filter (· ≠ id) }
 
+/-- Creating the temp file, copying `got` into it, closing it; `bad` is the verdict reached after the
+    copy (`Truncated`, `BodyTooLong`), if any.  Every early return drops the `TempFile` guard, which
+    deletes the file; only success moves the guard into the returned body. -/
+def storeUpload (c : Conn) (fs : FsFault) (got : Bytes) (bad : Option HttpError) : Conn × Except HttpError BodyVal :=
+  if fs.createFails then (c, .error (.errorSavingFile "" [])) else
+  let id := c.created
+  let c := (newFile c).1
+  if fs.writeFails && got.length > 0 then (dropFile c id, .error (.errorSavingFile "" []))
+  else match bad with
+    | some e => (dropFile c id, .error e)
+    | none => (c, .ok (.file id got))
+
 /-- `HttpConn::read_body_to_file(dir, max_len)`; the repaired code uses `max_len.saturating_add(1)`. -/
 def readBodyToFile (c : Conn) (maxLen : Nat) (fs : FsFault) : Conn × Except HttpError BodyVal :=
   match c.rs with
@@ -136,33 +148,25 @@ def readBodyToFile (c : Conn) (maxLen : Nat) (fs : FsFault) : Conn × Except Htt
     match len with
     | some n =>
       if n > maxLen then (c, .error .bodyTooLong) else
-      let (c, cont) := if expect then writeContinue c else (c, .ok ())
-      match cont with
-      | .error e => (c, .error e)
+      let w := if expect then writeContinue c else (c, .ok ())
+      match w.2 with
+      | .error e => (w.1, .error e)
       | .ok () =>
-        let c := { c with rs := .head }
-        if fs.createFails then (c, .error (.errorSavingFile "" [])) else
-        let (c, id) := newFile c
+        let c := w.1
         let got := c.input.take n
-        let c := { c with input := c.input.drop n }
-        if fs.writeFails && got.length > 0 then (dropFile c id, .error (.errorSavingFile "" []))
-        else if got.length < n then (dropFile c id, .error .truncated)
-        else (c, .ok (.file id got))
+        storeUpload { c with rs := .head, input := c.input.drop n } fs got
+          (if got.length < n then some .truncated else none)
     | none =>
-      let (c, cont) := if expect then writeContinue c else (c, .ok ())
-      match cont with
-      | .error e => (c, .error e)
+      let w := if expect then writeContinue c else (c, .ok ())
+      match w.2 with
+      | .error e => (w.1, .error e)
       | .ok () =>
-        let c := { c with rs := .shutdown }
-        if fs.createFails then (c, .error (.errorSavingFile "" [])) else
-        let (c, id) := newFile c
+        let c := w.1
         let lim := min (maxLen + 1) (2 ^ 64 - 1)
         let got := c.input.take lim
         -- bytes beyond `max_len + 1` stay unread on the socket; the connection is closed afterwards
-        let c := { c with input := c.input.drop lim }
-        if fs.writeFails && got.length > 0 then (dropFile c id, .error (.errorSavingFile "" []))
-        else if maxLen < got.length then (dropFile c id, .error .bodyTooLong)
-        else (c, .ok (.file id got))
+        storeUpload { c with rs := .shutdown, input := c.input.drop lim } fs got
+          (if maxLen < got.length then some .bodyTooLong else none)
 
 /-! ### Arbitrary call sequences (C05) -/
 
